@@ -26,7 +26,7 @@ for c in m['checks']:
     env = dict(os.environ)
     if seed is not None:
         env['VERIF_SEED'] = seed
-    ev = c['evidence_file']
+    ev = os.path.join(VERIF, 'evidence', os.path.basename(c['evidence_file']))
     if os.path.exists(ev):
         os.unlink(ev)
     t0 = time.time()
